@@ -36,7 +36,7 @@ type mutantResult struct {
 
 // seeded changes that the checks are known not to detect, with the reason (DESIGN.md section 8)
 var seedExpectedMissed = map[string]string{
-	"C10_b": "replaces sort.Sort by a hand-written insertion loop with an off-by-one bound: the sortedness of tsList is a value-level invariant; a rule demanding the library sort would also reject a correct hand-written insertion",
+	"C10_d": "changes the interpolation arithmetic of the percentile processor for ranks below 1 (only with exactly two samples): the numerical result of a processor function is not a property of the code's shape; C10 declares the arithmetic of the ten functions not decided",
 }
 
 func applyReplace(content []byte, old, new string) ([]byte, bool) {
